@@ -113,3 +113,7 @@ V('C13', 'newrel-inherits-path-scope', 'edb/pgsql/compiler/context.py',
   '                self.path_scope = collections.ChainMap()\n                self.rel_hierarchy = {}\n                self.scope_tree = prevlevel.scope_tree.root',
   '                self.path_scope = prevlevel.path_scope.new_child()\n                self.rel_hierarchy = {}\n                self.scope_tree = prevlevel.scope_tree.root',
   'C13.R9', 'newrel-empty-path-scope')
+
+# round 5: the stored seeded breaks this property's check reports, replayed as variants
+from sa.selftest import VP  # noqa
+VP('C13', 'C13-e3', 'C13.R10', 'oparams-index')
